@@ -536,12 +536,21 @@ fn gen_conn(rng: &mut Rng) -> ConnScenario {
             client.info_delay_ns = 0;
         }
     }
+    let cfg = ConnCfg {
+        secret: if rng.chance(1, 2) { Some(rng.bytes(8)) } else { None },
+        ..Default::default()
+    };
+    // a returning player whose genuine cookie lets the server skip the authentication step between the Encryption
+    // Response and the switch to the encrypted stream
+    if let (3, Some(sec)) = (intent, &cfg.secret)
+        && rng.chance(1, 2)
+    {
+        let id = super::common::Identity { name: "Returning".into(), uuid: 0x5151, props: vec![] };
+        client.auth_cookie = Some(super::common::signed_cookie(sec, &super::common::cookie_json(crate::conn::Wall::default().base_s - 5, &cfg.client_addr, &id, Some("t1"))));
+    }
     ConnScenario {
         seed: rng.next_u64(),
-        cfg: ConnCfg {
-            secret: if rng.chance(1, 2) { Some(rng.bytes(8)) } else { None },
-            ..Default::default()
-        },
+        cfg,
         wall: Default::default(),
         services,
         client,
